@@ -1,7 +1,7 @@
 (* Wire-level wrappers of property C07: decode arguments from sx, run the model, encode.
    Dispatch.v routes a block of unit numbers here; [k] is the offset inside the block. *)
 From Coq Require Import ZArith QArith List Bool.
-From VL Require Import Prelude.Sx Prelude.PyDict Model.Divisor Model.HighestAverages Model.Biprop.
+From VL Require Import Prelude.Sx Prelude.PyDict Model.Divisor Model.HighestAverages Model.Biprop Model.BipropLoop.
 Import ListNotations.
 Open Scope Z_scope.
 
@@ -130,6 +130,49 @@ Definition u_adj_coef (a : sx) : sx :=
   | _ => bad_input
   end.
 
+(* k = 5  the whole of BiproportionalEvaluator.evaluate: (div q votes n tgtmode dorder fuel)
+     tgtmode = (0)       seats as a total, no apportioner: districts by the same divisor rule (evaluate_total)
+             | (1 dict)  tgt_district_seats as core.apportion returned them (evaluate_core)
+     dorder  = iteration order of frozenset(cur_district_seats) | frozenset(tgt_district_seats)
+   -> (0 (code payload trace)) : code 0 returned (payload = (res rho gamma): the final multipliers are ghost output),
+      1 VotingSystemError (payload = the refused coefficient), 2 ZeroDivisionError, 3 KeyError, 4 ValueError,
+      10 / 11 party / district apportionment tied (outside the modelled domain), 99 out of fuel;
+      trace = the (res rho gamma) at the top of every iteration *)
+Definition of_qdict (l : list (C * Q)) : sx := of_dict of_pos of_Q l.
+Definition of_bstate (s : bstate) : sx := L [of_mat (b_res s); of_qdict (b_rho s); of_qdict (b_gamma s)].
+Definition of_bp (r : bp_result) (tr : list bstate) : sx :=
+  let t := L (map of_bstate tr) in
+  match r with
+  | BP_ok res rho gamma => ok (L [A 0; L [of_mat res; of_qdict rho; of_qdict gamma]; t])
+  | BP_refused a => ok (L [A 1; of_Q a; t])
+  | BP_zero_division => ok (L [A 2; L []; t])
+  | BP_key_error => ok (L [A 3; L []; t])
+  | BP_value_error => ok (L [A 4; L []; t])
+  | BP_party_tie => ok (L [A 10; L []; t])
+  | BP_district_tie => ok (L [A 11; L []; t])
+  | BP_out_of_fuel => ok (L [A 99; L []; t])
+  end.
+
+Definition u_biprop_loop (a : sx) : sx :=
+  match a with
+  | L [A dv; qq; v; A n; tm; dord; fu] =>
+      match as_Q qq, as_mat v, as_listof as_pos dord, as_nat fu with
+      | Some q, Some votes, Some dorder, Some fuel =>
+          let d := divisor_by_id dv in
+          match tm with
+          | L [A 0] => let tr := run_total d q votes n dorder fuel in of_bp (snd tr) (fst tr)
+          | L [A 1; dd] =>
+              match as_dict as_pos as_Z dd with
+              | Some tgt => let tr := run_core d q votes tgt dorder n fuel in of_bp (snd tr) (fst tr)
+              | None => bad_input
+              end
+          | _ => bad_input
+          end
+      | _, _, _, _ => bad_input
+      end
+  | _ => bad_input
+  end.
+
 Definition u_c07 (k : Z) (a : sx) : sx :=
   match k with
   | 0 => u_biprop_check a
@@ -137,5 +180,6 @@ Definition u_c07 (k : Z) (a : sx) : sx :=
   | 2 => u_feasible a
   | 3 => u_augment a
   | 4 => u_adj_coef a
+  | 5 => u_biprop_loop a
   | _ => bad_input
   end.
